@@ -155,6 +155,13 @@ def run(chk):
                 if p["raw"][1] == 10:
                     codes[L.be16(p["raw"], 2)] += 1
 
+    # 00. the send loop itself on a transport whose calls take time (the model's send path has no clock)
+    ncases, bad = L.tr_loops_check(rnd, "send", 400 if quick else 20000)
+    nrun += ncases
+    if bad:
+        found += 1
+        chk.violation({"kind": "tr_send_all on a slow transport (impl vs the loop of C14_send_all)", "detail": bad,
+                       "replay_cmd": "echo '<case>' | build/bin/tr_loops_asan"}, key="send-loop")
     # 0. corpus
     for name, lines in corpus():
         fnd, impl, s = examine(lines)
@@ -205,7 +212,8 @@ def run(chk):
         if quick and time.time() - t0 > 130:
             chk.notes.append("conversation budget reached after %d conversations" % k)
             break
-        s, meta = R.build_conversation(rnd, nex=rnd.randint(3, 7), fault_p=0.6, faults=FAULTS, final_good=rnd.randint(0, 1))
+        s, meta = R.build_conversation(rnd, nex=rnd.randint(3, 7), fault_p=0.6, faults=FAULTS, final_good=rnd.randint(0, 1),
+                                        cfg={"big": (not quick) and rnd.random() < 0.05})
         lines = s.lines()
         fnd, impl, st = examine(lines)
         nrun += 1
